@@ -5,6 +5,8 @@
 package c12
 
 import (
+	"os"
+	"time"
 	"bytes"
 	"crypto/ed25519"
 	"crypto/sha512"
@@ -223,38 +225,72 @@ func Run(c *vf.Check) {
 						continue
 					}
 					n, t, p, msg := n, t, p, msg
-					jobs = append(jobs, func() { explore(c, "poly", n, t, t, p, msg) })
+					jobs = append(jobs, func() { explore(c, "poly", n, t, t, p, msg, false) })
 				}
 				// a signing threshold above the threshold of the distributed keys
 				if t > 2 && (p == 0 || c.Thorough()) {
 					n, t, p := n, t, p
-					jobs = append(jobs, func() { explore(c, "poly", n, t-1, t, p, []byte("c12 message")) })
+					jobs = append(jobs, func() { explore(c, "poly", n, t-1, t, p, []byte("c12 message"), false) })
 				}
 				// keys produced by the DKG implementations themselves (thresholds both accept)
 				if t >= n/2+1 && (n == 3 || c.Thorough()) && (p == 0 || p == n-1 || c.Thorough()) {
 					for _, src := range []string{"pedersen", "pedersen-fast", "rabin"} {
 						n, t, p, src := n, t, p, src
-						jobs = append(jobs, func() { explore(c, src, n, t, t, p, []byte("c12 message")) })
+						jobs = append(jobs, func() { explore(c, src, n, t, t, p, []byte("c12 message"), false) })
 					}
 				}
 			}
 		}
 	}
+	// larger groups (the statement quantifies n up to 7): the same exploration over a reduced event menu
+	bigNs := []int{5, 7}
+	if c.Thorough() {
+		bigNs = []int{6, 7}
+	}
+	for _, n := range bigNs {
+		for t := 2; t <= n; t++ {
+			if !c.Thorough() && !(t == 2 || t == n/2+1 || t == n) {
+				continue
+			}
+			for _, p := range []int{0, n - 1} {
+				if !c.Thorough() && p != 0 && t != n/2+1 {
+					continue
+				}
+				n, t, p := n, t, p
+				jobs = append(jobs, func() { explore(c, "poly", n, t, t, p, []byte("c12 message"), true) })
+			}
+		}
+	}
 	vf.Parallel(len(jobs), func(i int) { jobs[i]() })
-	c.Finish("engine S (explicit-state BFS, successor = replay on a fresh DSS object, merged on the model's accepted set + EnoughPartialSig + per-signer delivery counts (capped at 2) + order of own PartialSig() and the echo of the own partial): n=3,4 (thorough ..5), every 2<=t<=n, at every participant (n=4: first and last), keys from seeded polynomials (also with a key threshold below the signing threshold) and (n=3; thorough also 4, 5) from the Pedersen, Pedersen fast-sync and Rabin DKG implementations, messages of 0, 11 and 125 bytes: all histories up to depth n+2 over {own PartialSig(), per other signer: valid partial, value+1 re-signed, signature bit-flipped; own partial echoed back; partial of another session, for another message, with replaced session id, with index n, n+1, 2^32-1 and the receiver's own index}. "+
+	c.Finish("engine S (explicit-state BFS, successor = replay on a fresh DSS object, merged on the model's accepted set + EnoughPartialSig + per-signer delivery counts (capped at 2) + order of own PartialSig() and the echo of the own partial): n=3,4 (thorough ..5), every 2<=t<=n, at every participant (n=4: first and last) - and n=5,7 (thorough 6,7) with t in {2, n/2+1, n} (thorough: every t, first and last participant) over a reduced event menu {own, valid partial of every other signer (again = duplicate), echo of the own partial, value+1 / index n / other session by the next signer} to depth t+1, second deliveries told apart for one signer -, keys from seeded polynomials (also with a key threshold below the signing threshold) and (n=3; thorough also 4, 5) from the Pedersen, Pedersen fast-sync and Rabin DKG implementations, messages of 0, 11 and 125 bytes: all histories up to depth n+2 over {own PartialSig(), per other signer: valid partial, value+1 re-signed, signature bit-flipped; own partial echoed back; partial of another session, for another message, with replaced session id, with index n, n+1, 2^32-1 and the receiver's own index}. "+
 		"Oracle after every transition: ProcessPartialSig succeeds exactly for a first valid partial of this session; EnoughPartialSig <=> |accepted| >= t; Signature() errors below t and otherwise returns exactly R || (k + H(R,A,m) x) computed with math/big from the polynomials, which verifies under dss.Verify, eddsa.Verify and crypto/ed25519 - identical in every state and at every participant. "+
 		"non-trivial = histories of length >= 2 reaching a new accepted set",
 		[]string{"distributed keys: (share, commitment) pairs of seeded polynomials for every n, t; for the thresholds the DKGs accept additionally the outputs of all-honest runs of the real Pedersen (regular and fast-sync) and Rabin DKG code, the reference secret then interpolated in math/big from the shares", "state merging assumes the accepted set determines future behaviour"}, nil)
 }
 
-func explore(c *vf.Check, src string, n, kt, t, p int, msg []byte) {
+func explore(c *vf.Check, src string, n, kt, t, p int, msg []byte, large bool) {
 	pk := "C12/dss"
+	t0 := time.Now()
 	var w *world
 	c.Case(fmt.Sprintf("dss keys=%s n=%d key-threshold=%d t=%d p=%d msg=%d: setup", src, n, kt, t, p, len(msg)), pk+"/setup", func(x *vf.Ctx) { w = newWorld(src, n, kt, t, p, msg) })
 	if w == nil {
 		return
 	}
 	depth := n + 2
+	names := w.names
+	if large {
+		// reduced menu: own, every other signer's valid partial (a second delivery is the duplicate), the echo of the
+		// own partial, and of the next signer: value+1 re-signed, index n, another session
+		names = nil
+		nx := (p + 1) % n
+		for _, ev := range w.names {
+			if ev == "own" || strings.HasPrefix(ev, "valid:") || strings.HasPrefix(ev, "echo-own:") || ev == fmt.Sprintf("value+1:%d", nx) ||
+				ev == fmt.Sprintf("index=%d-by:%d", n, nx) || ev == fmt.Sprintf("other-session:%d", nx) {
+				names = append(names, ev)
+			}
+		}
+		depth = t + 1
+	}
 	type node struct{ hist []string }
 	seen := map[string]bool{}
 	frontier := []node{{nil}}
@@ -359,8 +395,8 @@ func explore(c *vf.Check, src string, n, kt, t, p int, msg []byte) {
 					case strings.HasPrefix(ev, "valid:"):
 						var i int
 						fmt.Sscanf(ev, "valid:%d", &i)
-						if cnt[i] < 2 {
-							cnt[i]++
+						if cnt[i] < 2 && !(large && cnt[i] == 1 && i != (p+1)%n) {
+							cnt[i]++ // large menu: second deliveries are told apart for one signer only
 						}
 					}
 				}
@@ -384,14 +420,25 @@ func explore(c *vf.Check, src string, n, kt, t, p int, msg []byte) {
 				c.Nontrivial(id)
 			}
 			if len(hist) < depth {
-				for _, ev := range w.names {
+				for _, ev := range names {
 					next = append(next, node{append(append([]string{}, hist...), ev)})
 				}
 			}
 		}
 		frontier = next
 	}
+	if os.Getenv("VERIF_DEBUG") != "" {
+		fmt.Fprintf(dbgFile(), "c12 job %s n=%d t=%d p=%d large=%v: states=%d transitions=%d %v\n", src, n, t, p, large, states, trans, time.Since(t0))
+	}
 	c.Count("states", int64(states))
 	c.Count("transitions", int64(trans))
 	c.Count("traces_validated_against_impl", int64(trans))
+}
+
+func dbgFile() *os.File {
+	f, err := os.OpenFile(os.Getenv("VERIF_DEBUG"), os.O_APPEND|os.O_CREATE|os.O_WRONLY, 0o644)
+	if err != nil {
+		return os.Stderr
+	}
+	return f
 }
